@@ -31,6 +31,18 @@ CHECKS: dict[str, tuple[str, str, str, str]] = {
         "Trusted: CPython ast, re._parser, sa/relang.py, sa/tab.py, sa/fold.py. Names exclude '/', NUL, CR, LF.",
         "DESIGN.md §3 C03",
     ),
+    "C05": (
+        "transducer extraction by conditional constant propagation + automata language inclusion",
+        "The glob translator is extracted from the source as an exact finite-state transducer; for every glob over"
+        " {a . / * \\} up to length 5 (quick) / 8 plus 60k seeded random globs to length 16 (thorough) the produced"
+        " regular expression is compared, for paths of any length, with the narrowest and widest reading of the"
+        " specification by language inclusion. Bounded in the glob length only; the path quantifier is unbounded."
+        " Decides the translation and the matcher wiring, not tomlkit or pathlib behaviour.",
+        "Trusted: CPython ast, re._parser (assumed to describe what re compiles), sa/transducer.py, sa/relang.py."
+        " Known finding (class B) is recognised by language equality with a frozen defect model, so any other"
+        " deviation is still a violation.",
+        "DESIGN.md §3 C05",
+    ),
 }
 
 PENDING_REASON = "check not implemented yet (build in progress; see DESIGN.md §7)"
